@@ -61,7 +61,7 @@ class _VF:
         return iter(self._records)
 
 
-def make_record(ctx, k, chrom, sample_names, som_choices=(False, True), fields="DP+AD", rich=True, plain_numbers=False):
+def make_record(ctx, k, chrom, sample_names, som_choices=(False, True), fields="DP+AD", rich=True, plain_numbers=False, info_dp=False):
     """rich: allele kind, SOMATIC flag and genotypes are solver-chosen; otherwise the record is a plain
     heterozygous SNV (its numbers stay symbolic) -- one rich record per table keeps the case split small."""
     start = ctx.int(f"pos{k}", 0, M) if not (plain_numbers and not rich) else 500 + 10 * k
@@ -81,6 +81,11 @@ def make_record(ctx, k, chrom, sample_names, som_choices=(False, True), fields="
     som = ctx.choice(f"som{k}", list(som_choices)) if rich else False
     if som:
         info["SOMATIC"] = True
+    idp = None
+    if info_dp:
+        # INFO/DP is the depth over all samples: the last resort, after the sample's own DP and AD
+        idp = ctx.int(f"idp{k}", 0, 3000)
+        info["DP"] = idp
     samples = {}
     exp = {}
     for nm in sample_names:
@@ -97,7 +102,7 @@ def make_record(ctx, k, chrom, sample_names, som_choices=(False, True), fields="
         if "AD" in fields:
             d["AD"] = (ad_ref, ad_alt)
         samples[nm] = d
-        depth = dp if "DP" in fields else (ad_ref + ad_alt)
+        depth = dp if "DP" in fields else ((ad_ref + ad_alt) if "AD" in fields else idp)
         # _safesum drops zero counts, which does not change the sum
         alt = ad_alt if "AD" in fields else None
         zyg = 0.5 if len(set(gt)) > 1 else (0.0 if gt[0] == 0 else 1.0)
@@ -105,11 +110,11 @@ def make_record(ctx, k, chrom, sample_names, som_choices=(False, True), fields="
     return _Rec(chrom, start, ref, alts, info, samples), (start, end, som, exp, alts[0], ref)
 
 
-def h_rows(ctx, sample_names, pedigree, sel, normal_sel, order, skip_somatic, n=2, fields="DP+AD", plain=False):
+def h_rows(ctx, sample_names, pedigree, sel, normal_sel, order, skip_somatic, n=2, fields="DP+AD", plain=False, info_dp=False):
     chroms = ["chr1", "chr1", "chr2"][:n]
     recs, exps = [], []
     for k in range(n):
-        r, e = make_record(ctx, k, chroms[k], sample_names, fields=fields, rich=(k == 0), plain_numbers=plain)
+        r, e = make_record(ctx, k, chroms[k], sample_names, fields=fields, rich=(k == 0), plain_numbers=plain, info_dp=info_dp)
         recs.append(r)
         exps.append(e)
     for i in range(n):
@@ -187,7 +192,7 @@ def h_rows(ctx, sample_names, pedigree, sel, normal_sel, order, skip_somatic, n=
         r = got[hit]
         ctx.claim(And(r.start == start, r.end == end), "0-based start; end = start + len(alt) or INFO END")
         ctx.claim(r.ref == ref and r.alt == alt, "alleles stay attached to their own coordinates")
-        ctx.claim(r.depth == depth, "depth is DP, else the sum of AD")
+        ctx.claim(r.depth == depth, "depth is the sample's DP, else the sum of its AD, else INFO/DP")
         ctx.claim(r.zygosity == zyg, "zygosity 0 / 0.5 / 1 from the genotype")
         ctx.claim(bool(r.somatic) == bool(som), "the SOMATIC flag")
         if altc is not None:
@@ -268,7 +273,7 @@ def h_het(ctx, tumor_boost, zygosity_freq=None):
     ctx.cover("dropped a homozygous record", len(want) < 2)
 
 
-def h_baf(ctx, above_half, tumor_boost=False):
+def h_baf(ctx, above_half, tumor_boost=False, one_chrom=False):
     """baf_by_ranges: median of the mirrored heterozygous frequencies inside each range
     (TumorBoost-normalised first when asked; the normal's frequencies are concrete so that
     the quotients stay linear)."""
@@ -276,13 +281,22 @@ def h_baf(ctx, above_half, tumor_boost=False):
     pos = [10, 20, 110]
     freqs = [ctx.real(f"f{i}", 0, 1) for i in range(n)]
     zyg = [ctx.choice(f"z{i}", [0.0, 0.5, 1.0]) for i in range(n)]
-    cols = {"chromosome": ["chr1"] * n, "start": pos, "end": [p + 1 for p in pos], "ref": ["A"] * n, "alt": ["G"] * n, "zygosity": zyg, "alt_freq": freqs}
+    vchroms = ["chr1"] * n
+    if one_chrom:
+        # segments on one chromosome only, variants on that one and on another at coordinates that
+        # fall inside the segments: frequencies stay attached to their own chromosome
+        vchroms = ["chr1", "chr2", "chr1"]
+    cols = {"chromosome": vchroms, "start": pos, "end": [p + 1 for p in pos], "ref": ["A"] * n, "alt": ["G"] * n, "zygosity": zyg, "alt_freq": freqs}
     nfreq = [0.5, 0.4, 0.25]
     if tumor_boost:
         cols["n_zygosity"] = list(zyg)
         cols["n_alt_freq"] = list(nfreq)
     va = VA(make_df(cols))
     segs = make_ga({"chromosome": ["chr1", "chr1", "chr2"], "start": [0, 100, 0], "end": [100, 200, 50]})
+    groups = ([0, 1], [2], [])
+    if one_chrom:
+        segs = make_ga({"chromosome": ["chr1", "chr1", "chr1"], "start": [0, 100, 300], "end": [100, 200, 350]})
+        groups = ([0], [2], [])
     if tumor_boost:
         # the formula, per variant (stays attached to its own coordinates)
         freqs = [If(f < nf, 0.5 * f / nf, 1 - 0.5 * (1 - f) / (1 - nf)) for f, nf in zip(freqs, nfreq)]
@@ -295,7 +309,7 @@ def h_baf(ctx, above_half, tumor_boost=False):
     ctx.claim(len(baf) == 3, "one BAF per range")
     het = [i for i in range(n) if zyg[i] == 0.5]
     use = het if het else list(range(n))
-    for k, members in enumerate(([0, 1], [2], [])):
+    for k, members in enumerate(groups):
         mem = [i for i in members if i in use]
         if not mem:
             ctx.claim(is_nan(baf[k]), "BAF is missing where a range holds no heterozygous variant")
@@ -362,6 +376,9 @@ def _rows_cfgs():
         for fields in ("DP+AD", "AD", "DP"):
             out.append({"sample_names": ["S"], "pedigree": None, "sel": None, "normal_sel": None, "order": order, "skip_somatic": False, "fields": fields})
     out.append({"sample_names": ["S"], "pedigree": None, "sel": None, "normal_sel": None, "order": [0, 1], "skip_somatic": True})
+    # INFO/DP present: it is used only when the sample has neither DP nor AD
+    out.append({"sample_names": ["S"], "pedigree": None, "sel": None, "normal_sel": None, "order": [0, 1], "skip_somatic": False, "fields": "AD", "info_dp": True})
+    out.append({"sample_names": ["S"], "pedigree": None, "sel": None, "normal_sel": None, "order": [1, 0], "skip_somatic": False, "fields": "GT", "info_dp": True})
     for ped in (None, ["T", "N"]):
         for sel, nsel in ((None, None), ("T", "N"), ("T", None), (0, 1), (None, "N"), ("N", None)):
             c = {"sample_names": ["T", "N"], "pedigree": ped, "sel": sel, "normal_sel": nsel, "order": [1, 0], "skip_somatic": sel is None}
@@ -379,7 +396,7 @@ def _rows_cfgs():
 HARNESSES = [
     Harness("rows", h_rows, _rows_cfgs(), covers=["record kept", "record dropped", "normal without depth"], wall_s=400, thorough_wall_s=1800),
     Harness("load_het_snps", h_het, [{"tumor_boost": False}, {"tumor_boost": False, "zygosity_freq": 0.0}, {"tumor_boost": False, "zygosity_freq": 0.25, "tier": "thorough"}], covers=["dropped a homozygous record", "genotypes from frequencies"], wall_s=300),
-    Harness("baf_by_ranges", h_baf, [{"above_half": None}, {"above_half": True}, {"above_half": False}, {"above_half": None, "tumor_boost": True}, {"above_half": True, "tumor_boost": True}], covers=["empty range", "two variants in a range"], wall_s=300),
+    Harness("baf_by_ranges", h_baf, [{"above_half": None}, {"above_half": True}, {"above_half": False}, {"above_half": None, "tumor_boost": True}, {"above_half": True, "tumor_boost": True}, {"above_half": None, "one_chrom": True}], covers=["empty range", "two variants in a range"], wall_s=300),
     Harness("formulas", h_formulas, [{}], covers=["reached", "tie at zero"]),
     Harness("call_baf", h_call_baf, [{"filt": "ci"}, {"filt": "sem"}, {"filt": None}], covers=["reached"], wall_s=300),
 ]
